@@ -14,6 +14,7 @@ package main
 import (
 	"fmt"
 	"go/constant"
+	"go/token"
 	"sort"
 	"strings"
 
@@ -195,6 +196,10 @@ func (r *errResolver) callAlts(c *ssa.Call, idx int, seen map[ssa.Value]bool) []
 		format := ""
 		if k, ok := c.Call.Args[0].(*ssa.Const); ok && k.Value != nil {
 			format = constStringVal(k)
+		} else if f, ok := r.prefixedFormat(c.Call.Args[0]); ok {
+			// "<constant prefix>" + format, with format a parameter to which every
+			// caller passes a constant without a wrapping verb (an Errorf helper)
+			format = f
 		} else {
 			return []ErrAlt{{Cls: []string{"?"}, Origin: c}}
 		}
@@ -336,6 +341,51 @@ func (r *errResolver) callAlts(c *ssa.Call, idx int, seen map[ssa.Value]bool) []
 		}
 	}
 	return dedupAlts(out)
+}
+
+// prefixedFormat: v is `"const" + p` where p is a string parameter of an
+// unexported function whose address is never taken and to which every static
+// caller passes a constant string containing no %w. Returns the constant
+// prefix (the only part that can wrap).
+func (r *errResolver) prefixedFormat(v ssa.Value) (string, bool) {
+	bo, ok := v.(*ssa.BinOp)
+	if !ok || bo.Op != token.ADD {
+		return "", false
+	}
+	k, ok := bo.X.(*ssa.Const)
+	if !ok || k.Value == nil || k.Value.Kind() != constant.String {
+		return "", false
+	}
+	prm, ok := bo.Y.(*ssa.Parameter)
+	if !ok {
+		return "", false
+	}
+	fn := prm.Parent()
+	if fn.Object() == nil || fn.Object().Exported() || r.w.addressTaken()[fn] {
+		return "", false
+	}
+	idx := paramIndex(fn, prm)
+	node := r.w.CallGraph().Nodes[fn]
+	if idx < 0 || node == nil || len(node.In) == 0 {
+		return "", false
+	}
+	for _, in := range node.In {
+		if in.Site == nil {
+			return "", false
+		}
+		cc := in.Site.Common()
+		if cc.StaticCallee() != fn {
+			continue
+		}
+		if idx >= len(cc.Args) {
+			return "", false
+		}
+		a, ok := cc.Args[idx].(*ssa.Const)
+		if !ok || a.Value == nil || a.Value.Kind() != constant.String || len(wrapVerbOperands(constStringVal(a))) > 0 {
+			return "", false
+		}
+	}
+	return constStringVal(k), true
 }
 
 // funcValueAlts: the alternatives of result ri of the function value v handed
